@@ -106,4 +106,51 @@ theorem uint_rem_limb_eq (L : Nat) (u : List (BitVec 64)) (d : BitVec 64) :
     DivLimbLoops.Uint.rem_limb L u d = DivLimbLoops.rem_limb_with_reciprocal L u (DivLimb.Reciprocal.new d) := by
   dll_round_eq
 
+/-! ## `Uint::shl_limb_vartime` / `Uint::shr_limb_vartime` (private helpers of `div_rem_vartime`, src/uint/div.rs) -/
+
+theorem shlvt_loop_zero (L : Nat) (a : List (BitVec 64)) (ls rs : BitVec 32) (limbs : List (BitVec 64)) :
+    DivLimbLoops.Vartime.shl_limb_vartime_loop1 L a ls rs 0 limbs = limbs := by
+  rw [DivLimbLoops.Vartime.shl_limb_vartime_loop1]
+
+/-- round `n + 1` of `while i > 0 { limbs[i] = ..; i -= 1; }` (the decrement LAST): `i = n + 1` -/
+theorem shlvt_loop_succ (L : Nat) (a : List (BitVec 64)) (ls rs : BitVec 32) (n : Nat) (limbs : List (BitVec 64)) :
+    DivLimbLoops.Vartime.shl_limb_vartime_loop1 L a ls rs (n + 1) limbs =
+      DivLimbLoops.Vartime.shl_limb_vartime_loop1 L a ls rs n
+        (limbs.set (n + 1) (((a.getD (n + 1) 0#64) <<< (ls % 64#32)) ||| ((a.getD n 0#64) >>> (rs % 64#32)))) := by
+  rw [DivLimbLoops.Vartime.shl_limb_vartime_loop1] <;> dll_round_eq
+
+theorem shl_limb_vartime_zero (L : Nat) (a : List (BitVec 64)) (k : Nat) :
+    DivLimbLoops.Vartime.shl_limb_vartime L a 0#32 k = (a, 0#64) := by
+  dll_round_eq
+
+theorem shl_limb_vartime_eq_loop (L : Nat) (a : List (BitVec 64)) (s : BitVec 32) (k : Nat) (hs : s ≠ 0#32) :
+    DivLimbLoops.Vartime.shl_limb_vartime L a s k =
+      ((DivLimbLoops.Vartime.shl_limb_vartime_loop1 L a s (64#32 - s) (k - 1) (List.replicate L 0#64)).set 0
+          ((a.getD 0 0#64) <<< (s % 64#32)),
+       (a.getD (k - 1) 0#64) >>> ((64#32 - s) % 64#32)) := by
+  have h : ¬ ((s == 0#32) = true) := by simpa using hs
+  rw [DivLimbLoops.Vartime.shl_limb_vartime, if_neg h] <;> dll_round_eq
+
+theorem shrvt_loop_zero (L : Nat) (a : List (BitVec 64)) (k : Nat) (ls rs : BitVec 32) (i : Nat) (limbs : List (BitVec 64)) :
+    DivLimbLoops.Vartime.shr_limb_vartime_loop1 L a k ls rs 0 i limbs = limbs := by
+  rw [DivLimbLoops.Vartime.shr_limb_vartime_loop1]
+
+theorem shrvt_loop_succ (L : Nat) (a : List (BitVec 64)) (k : Nat) (ls rs : BitVec 32) (n i : Nat) (limbs : List (BitVec 64))
+    (h : i < k - 1) :
+    DivLimbLoops.Vartime.shr_limb_vartime_loop1 L a k ls rs (n + 1) i limbs =
+      DivLimbLoops.Vartime.shr_limb_vartime_loop1 L a k ls rs n (i + 1)
+        (limbs.set i (((a.getD i 0#64) >>> (rs % 64#32)) ||| ((a.getD (i + 1) 0#64) <<< (ls % 64#32)))) := by
+  rw [DivLimbLoops.Vartime.shr_limb_vartime_loop1, if_pos h] <;> dll_round_eq
+
+theorem shr_limb_vartime_zero (L : Nat) (a : List (BitVec 64)) (k : Nat) :
+    DivLimbLoops.Vartime.shr_limb_vartime L a 0#32 k = a := by
+  dll_round_eq
+
+theorem shr_limb_vartime_eq_loop (L : Nat) (a : List (BitVec 64)) (s : BitVec 32) (k : Nat) (hs : s ≠ 0#32) :
+    DivLimbLoops.Vartime.shr_limb_vartime L a s k =
+      (DivLimbLoops.Vartime.shr_limb_vartime_loop1 L a k (64#32 - s) s (k - 1) 0 (List.replicate L 0#64)).set (k - 1)
+          ((a.getD (k - 1) 0#64) >>> (s % 64#32)) := by
+  have h : ¬ ((s == 0#32) = true) := by simpa using hs
+  rw [DivLimbLoops.Vartime.shr_limb_vartime, if_neg h] <;> dll_round_eq
+
 end CB.GenBits
